@@ -735,6 +735,7 @@ func ruleOperationLookedUpByRelativePath(c *Ctx, rule string) {
 // template never becomes a parameter value (the required-parameter check then refuses the request). Shared by C01
 // (dispatch hands on the captured values) and C03 (binding reads them).
 func ruleCompositeDecoderFits(c *Ctx, rule string) {
+	ruleCompositeSearchBraced(c, rule)
 	f := c.P.Fn("rt/middleware.decodeCompositParams")
 	value := paramOf(f, 1)
 	isValue := vOrigins(oIsValue(value), oConstString("")) // (as a loop: the rest of the captured text, or "" once nothing is left)
@@ -826,4 +827,83 @@ func ruleCompositeDecoderFits(c *Ctx, rule string) {
 		}
 	}
 	c.obRF(rule, f, "composite-decoder-cuts-values", n >= 2, "the composite decoder cuts the parameter values out of the captured text", fmt.Sprintf("%d cut values", n))
+}
+
+// ruleCompositeSearchBraced: Lookup decides whether a path parameter is a fragment of a composite segment by finding
+// the parameter in the route's template — as "{name}", braces included. The bare name also occurs in literal segments
+// (/videos/{id}), and a hit there makes an ordinary parameter be cut like a fragment.
+func ruleCompositeSearchBraced(c *Ctx, rule string) {
+	lk := c.P.Fn("(*rt/middleware.defaultRouter).Lookup")
+	if lk == nil {
+		return
+	}
+	isPattern := vFieldLoadO(routeEntryT, "PathPattern")
+	var braced func(v ssa.Value, d int) (yes, decided bool)
+	braced = func(v ssa.Value, d int) (bool, bool) {
+		if d > 4 {
+			return false, false
+		}
+		switch x := v.(type) {
+		case *ssa.Call:
+			if calleeName(&x.Call) == "fmt.Sprintf" {
+				if fm, ok := constString(x.Call.Args[0]); ok {
+					return strings.HasPrefix(fm, "{%") && strings.HasSuffix(fm, "}"), true
+				}
+			}
+			if calleeName(&x.Call) == "strings.Join" {
+				return false, false
+			}
+		case *ssa.BinOp:
+			if x.Op == token.ADD {
+				// "{" + name + "}"
+				l, r := x.X, x.Y
+				if lb, isB := l.(*ssa.BinOp); isB && lb.Op == token.ADD {
+					if a, ok := constString(lb.X); ok {
+						if z, ok2 := constString(r); ok2 {
+							return a == "{" && z == "}", true
+						}
+					}
+				}
+				if a, ok := constString(l); ok {
+					if rb, isB := r.(*ssa.BinOp); isB && rb.Op == token.ADD {
+						if z, ok2 := constString(rb.Y); ok2 {
+							return a == "{" && z == "}", true
+						}
+					}
+				}
+			}
+		case *ssa.UnOp, *ssa.Field, *ssa.Extract:
+			// the parameter's bare name (a field of the matched parameter)
+			if _, isStr := v.Type().Underlying().(*types.Basic); isStr {
+				os := originsOf(v)
+				if len(os) == 1 {
+					if _, isF := os[0].V.(*ssa.Field); isF {
+						return false, true
+					}
+					if u, isU := os[0].V.(*ssa.UnOp); isU {
+						if _, isFA := u.X.(*ssa.FieldAddr); isFA {
+							return false, true
+						}
+					}
+				}
+			}
+		}
+		return false, false
+	}
+	n := 0
+	for _, ci := range callsIn(lk, "strings.Index") {
+		call, ok := ci.(*ssa.Call)
+		if !ok || !isPattern(call.Call.Args[0]) {
+			continue
+		}
+		n++
+		yes, decided := braced(call.Call.Args[1], 0)
+		what := "a path parameter is located in the route template as \"{name}\", braces included: the bare name also matches literal segments"
+		if decided {
+			c.obI(rule, call, "template-searched-for-braced-name", yes, what, "the template is searched for "+describe(call.Call.Args[1]))
+		} else {
+			c.obRI(rule, call, "template-searched-for-braced-name", false, what, "needle "+describe(call.Call.Args[1]))
+		}
+	}
+	c.obRF(rule, lk, "locates-parameter-in-template", n >= 1, "Lookup locates each parameter in the route's template", "")
 }
